@@ -109,7 +109,7 @@ var (
 	poolTickOp = newPool("subscription", 1, "query", 1)
 )
 
-var tickPart = pbt.Part[Case]{Name: "tws-init-timeout", Quick: 480, Thorough: 6400, Gen: genTick, Check: checkTick}
+var tickPart = pbt.Part[Case]{Name: "tws-init-timeout", Quick: 480, Thorough: 4800, Gen: genTick, Check: checkTick}
 
 func checkTick(c Case, o *pbt.Rec) pbt.Verdict {
 	if c.Proto != protoTWS || c.TimeoutMs <= 0 {
